@@ -52,7 +52,9 @@ def dumpTop (ks : List CN) : String :=
 def filters : List (String × (Attr → Bool)) :=
   [("config", fun a => a.cfg), ("state", fun a => !a.cfg), ("excl-state", fun a => a.cfg), ("excl-config", fun a => !a.cfg),
    ("config+state", fun _ => true), ("config+nostate", fun a => a.cfg), ("config-or-state", fun _ => true),
-   ("opd", fun _ => false), ("excl-opd", fun _ => true), ("none", fun _ => false)]
+   ("opd", fun _ => false), ("excl-opd", fun _ => true), ("none", fun _ => false),
+   -- (the nodes of the model are data nodes: none of them is an operational command)
+   ("nostate", fun a => a.cfg), ("opd+state", fun a => !a.cfg), ("excl-opd-state", fun a => a.cfg)]
 
 def handleFilter (j : Json) : List (String × Json) :=
   let top := (jarr j "top").map loadA
